@@ -2240,6 +2240,18 @@ func (k *Kernel) loadInitialView(
 		ProposedHeaders: phs,
 	}
 
+	// Votes that arrived for this round while its height was still in the future
+	// were verified against, and are stored under, the key set their message named.
+	// If that is not the key set this height turned out to have,
+	// they are not votes of this round's validators:
+	// they must not be counted, and they cannot be rebuilt against this set's keys.
+	if len(sparsePrevotes.PubKeyHash) > 0 && !bytes.Equal(sparsePrevotes.PubKeyHash, vs.PubKeyHash) {
+		sparsePrevotes = tmconsensus.SparseSignatureCollection{}
+	}
+	if len(sparsePrecommits.PubKeyHash) > 0 && !bytes.Equal(sparsePrecommits.PubKeyHash, vs.PubKeyHash) {
+		sparsePrecommits = tmconsensus.SparseSignatureCollection{}
+	}
+
 	// Is there ever a case where we don't have the validator hashes in the store?
 	// This should be safe anyway, and it only happens once at startup.
 	// TODO: gassert: confirm the store-returned hashes match vs.
